@@ -207,7 +207,12 @@ def run(chk):
                 chk.fail("multiplying N0 and the escape rate by the same factor multiplies every count by that factor", case,
                          dict(array=nm, max_dev=float(np.max(np.abs(b - lam * a)))))
         big = m1.Ns[0] > 100
-        if np.any(big) and (np.any(np.abs(m1.alpha[0][big] - m2.alpha[0][big]) > 5e-3) or abs(m1.mmean[0] - m2.mmean[0]) > 5e-3 * m1.mmean[0]):
+        # the fixed 0.1-object residue of every turned-off star bin carries up to 0.1 * (that bin's upper edge) of mass whatever the scale:
+        # its share of the mean mass is larger for the smaller population (allowed by the property: "up to the 0.1-object threshold")
+        up_ = np.asarray(m1.massbins.bins.MS.upper, dtype=float)
+        n_small = min(float(m1.Ns[0].sum() + sum(x[0].sum() for x in m1.Nr)), float(m2.Ns[0].sum() + sum(x[0].sum() for x in m2.Nr)))
+        mm_slack = 0.11 * float(up_.sum()) / max(n_small, 1.0)
+        if np.any(big) and (np.any(np.abs(m1.alpha[0][big] - m2.alpha[0][big]) > 5e-3) or abs(m1.mmean[0] - m2.mmean[0]) > 5e-3 * m1.mmean[0] + mm_slack):
             chk.fail("slopes and mean masses are unchanged by the scale", case,
                      dict(dalpha=float(np.max(np.abs(m1.alpha[0][big] - m2.alpha[0][big]))), mmean=[float(m1.mmean[0]), float(m2.mmean[0])]))
     # ---- explicit N0 overrides the IMF object's own N0; from_powerlaw == IMF object ---------------
